@@ -398,6 +398,13 @@ func paths(alpha []string, maxLen int) []string {
 	return out
 }
 
+// oddAlpha: bytes that mean something to URLs, to C strings or to nobody - none of them means
+// anything to the router, so each is ordinary parameter text.
+var oddAlpha = []string{"/", "a", " ", "%", ".", "?", "\x00", "\xff", "\xc3\xa9", "\t", "&", "\\"}
+
+// oddNames: a placeholder's name runs to the next '/', whatever bytes it contains.
+var oddNames = []string{"a", ":p", ":p.q", ":p q", ":p-q", ":p=q", ":p%2Fq"}
+
 type sweep struct {
 	name     string
 	universe []string
@@ -409,6 +416,19 @@ type sweep struct {
 func main() {
 	r := report.Start("C05", "exploration")
 	if r.Replay != "" {
+		var mc MuxCase
+		r.LoadReplay(&mc)
+		if mc.Kind == "mux-methods" {
+			cl, what := checkMux(mc)
+			fmt.Printf("replay %+v\n  class=%q %s\n", mc, cl, what)
+			if cl != "" {
+				r.Fail(cl, what, mc)
+			}
+			r.Eval(1)
+			r.Nontrivial(1)
+			r.Sample(mc)
+			r.Finish("replay of one case", false)
+		}
 		var c Case
 		r.LoadReplay(&c)
 		cl, what := check(c)
@@ -432,12 +452,16 @@ func main() {
 			{"triples-small-universe", small, []int{3}, paths(alpha, 6), true},
 			{"quads-tiny-universe", universe([]string{"a", ":p"}, 3, true), []int{4}, paths([]string{"/", "a", "x", ":", "*", "#"}, 6), true},
 			{"mid-segment-placeholders", universe([]string{"a", ":p", "a.:p"}, 3, true), []int{1, 2, 3}, paths([]string{"/", "a", ".", "x", ":", "#"}, 7), true},
+			{"odd-bytes", small, []int{1, 2}, paths(oddAlpha, 6), true},
+			{"odd-placeholder-names", universe(oddNames, 3, true), []int{1, 2}, paths([]string{"/", "a", "q", ".", " ", "-", "="}, 6), true},
 		}
 	} else {
 		sweeps = []sweep{
 			{"pairs-full-universe", big, []int{1, 2}, paths(alpha, 5), true},
 			{"triples-small-universe", small, []int{3}, paths([]string{"/", "a", "b", "x", ":", "#"}, 5), false},
 			{"mid-segment-placeholders", universe([]string{"a", ":p", "a.:p"}, 3, true), []int{1, 2}, paths([]string{"/", "a", ".", "x", ":"}, 7), true},
+			{"odd-bytes", small, []int{1, 2}, paths(oddAlpha, 5), true},
+			{"odd-placeholder-names", universe(oddNames, 2, true), []int{1, 2}, paths([]string{"/", "a", "q", ".", " ", "-", "="}, 5), true},
 		}
 	}
 	r.Set("path_alphabet", alpha)
@@ -571,6 +595,7 @@ func main() {
 			mu.Unlock()
 		})
 	}
+	muxMethods(r)
 	deep(r)
 	scale(r)
 	r.Set("builds_accepted", setsBuilt)
